@@ -106,11 +106,13 @@ def replay(path):
 MANIFEST = dict(
     category="proof",
     technique="Lean 4 theorem (mutual induction: raising validator = pure validator) + differential correspondence",
-    text="Lean theorems validate_ok/... prove that the model of the validator with every Python raise point explicit "
-         "never raises and equals the pure error-list function, for all schemas and all values (incl. nan, inf, huge ints, "
-         "opaque objects, `...`); the model is tied to d42/validation/_validator.py by comparing full error lists of model "
-         "and code on generated (schema, value) cases each run, and a model-free oracle checks no-exception / non-empty "
-         "messages / the validate_or_fail contract on the real code.",
+    text="validate_ok: the model of the validator with every Python raise point explicit never raises and equals the pure "
+         "error-list function, for all schemas and all values (incl. nan, inf, huge ints, opaque objects, `...`); "
+         "format_total: every error it produces renders (the formatter's only raise point, len(actual), is reached for "
+         "sized values only); validateOrFail_spec: validate_or_fail returns True iff there are no errors and otherwise "
+         "raises ValidationException with one rendered line per error. Tie: full error lists of model and code compared on "
+         "generated (schema, value) cases each run; model-free oracle: no exception, non-empty messages, the "
+         "validate_or_fail contract, on the real code.",
     note="Trusted: Lean kernel, axioms {propext, Classical.choice, Quot.sound}, the hand-written model (tied by sampling), "
          "wire codec, CPython built-ins not raising on standard data, re.search results shipped as a table. "
          "Formatter wording is not modelled; objects whose own special methods raise are excluded by the property.")
